@@ -158,3 +158,26 @@ package keeper
 //@   modifies nftClasses
 //@   ensures creator_only: err == nil ==> msg.Sender == DMETA(old(get(nftClasses, msg.Id))).Creator
 //@ end
+
+// Genesis export (C12, C14): every class - with or without tokens - is exported with its definition, and every token of
+// a class is listed in its collection (as many entries as the class has tokens; no page limit applies to an export).
+//@ func Keeper.GetNFTs(ctx, denom)
+//@   property C12, C14
+//@   returns nfts, err
+//@   invariant #1 idx: rangeindex >= 0 - 1 && rangeindex < len(tokens) && len(nfts) == rangeindex + 1
+//@   ensures all_listed: err == nil ==> len(nfts) == len(nftsof(denom))
+//@ end
+// every class of the token module appears in the export, each with as many tokens as the class holds
+//@ define exportedIn(cs, id) = exists j:Int :: 0 <= j && j < len(cs) && cs[j].Denom.Id == id && len(cs[j].NFTs) == len(nftsof(id))
+//@ func Keeper.GetCollections(ctx)
+//@   property C12, C14
+//@   returns cs, err
+//@   invariant #1 idx:  rangeindex >= 0 - 1 && rangeindex < len(rangeover) && len(cs) == rangeindex + 1
+//@   invariant #1 done: forall j:Int :: 0 <= j && j <= rangeindex ==> cs[j].Denom.Id == rangeover[j].val.Id && len(cs[j].NFTs) == len(nftsof(rangeover[j].val.Id))
+//@   ensures every_class: err == nil ==> (forall id:Str :: has(nftClasses, id) ==> exportedIn(cs, id))
+//@ end
+//@ func Keeper.ExportGenesis(ctx)
+//@   property C12, C14
+//@   returns gs
+//@   ensures every_class: forall id:Str :: has(nftClasses, id) ==> exportedIn(gs.Collections, id)
+//@ end
